@@ -21,8 +21,9 @@ RULES = {
     'R7': 'the decoder hands snprintf only directives printf accepts: the value of a \'*\' argument is pasted into the rebuilt directive only where it is non-negative or does not follow the precision dot (a negative precision means "none given")',
     'R8': 'the buffer the decoder rebuilds a directive in holds the longest directive without repeated flags: % + every flag character of its switch once + two \'*\' values of 11 characters + the dot + a two-letter length modifier + the conversion + NUL',
     'R9': 'the encoder reads a string argument that has a precision the way printf does: wherever the precision flag of the directive is set (also through \'*\') the argument is not handed to anything that measures it without bound (strlen, the strl* wrappers, strcpy)',
+    'R10': 'the decoder appends at its own write position: nothing is added to the output with a function that looks for the end of the string (strcat, strlcat and their wrappers) - a "%c" argument of 0 puts a NUL into the output, and text appended "at the end of the string" lands on top of what was written behind it',
 }
-FLOORS = {'R1': 12, 'R2': 20, 'R3': 20, 'R4': 2, 'R5': 12, 'R6': 1, 'R7': 1, 'R8': 1, 'R9': 2}
+FLOORS = {'R1': 12, 'R2': 20, 'R3': 20, 'R4': 2, 'R5': 12, 'R6': 1, 'R7': 1, 'R8': 1, 'R9': 2, 'R10': 1}
 
 
 def strl_summary(an, ev, st):
@@ -178,6 +179,8 @@ def run(ctx):
     prog = ctx.prog
     # helpers: return <= maxlen - 1 under maxlen >= 1
     for hn in ('my_strlcpy', 'my_strlcat'):
+        if hn != 'my_strlcpy' and not prog.has_fn(hn):
+            continue        # only the copy wrapper is needed; the append wrapper exists in older trees
         h = prog.fn(hn)
         d, m = h.params[0]['n'], h.params[2]['n']
         an = Analysis(prog, h, {d: Lin.term(m)}, init=[Lin(1) - Lin.term(m)]).run()
@@ -237,6 +240,7 @@ def run(ctx):
     r6(ctx, e)
     r7(ctx, d)
     r9(ctx, e)
+    r10(ctx, d)
 
 
 def _switch_block(f):
@@ -670,3 +674,23 @@ def r9(ctx, e):
               'a precision given through * is recorded for the string case', 'the * case does not record the value as the precision of a following s: "%.*s" is copied in full')
     if n < 1:
         raise AnalysisBroken('%s: no unbounded measurement of the string argument found (the no-precision path must have one)' % e.name)
+
+
+def r10(ctx, d):
+    prog = ctx.prog
+    out = d.params[0]['n']
+    CAT = ('strcat', 'strncat', 'strlcat', 'my_strlcat')
+
+    def reaches_cat(name, depth=2):
+        if name in CAT:
+            return True
+        if depth == 0 or not prog.has_fn(name):
+            return False
+        return any(ev.callee and (ev.callee in CAT or reaches_cat(ev.callee, depth - 1)) for g in prog.fns.get(name, []) for ev in g.events('CALL'))
+    bad = [ev for ev in d.events('CALL') if ev.callee and reaches_cat(ev.callee) and ev.args and estr(unwrap(ev.args[0])) == out]
+    bad += [ev for ev in d.events() if ev.kind in ('STORE', 'RETURN', 'DECL') and any(
+        nn.get('k') == 'call' and callee_of(nn) and reaches_cat(callee_of(nn)) and nn.get('args') and estr(unwrap(nn['args'][0])) == out
+        for nn in walk(ev.d.get('rhs') or ev.d.get('e') or ev.d.get('init') or {}))]
+    ctx.check('R10', 'decoder-appends-at-its-position', not bad, bad[0] if bad else d, 'the output is only written at &%s[position]' % out,
+              'the decoder appends to the output with %s, which starts at the first NUL of the output: after a "%%c" argument of 0 the rest of the message is written over '
+              'what follows that NUL ("a%%cb%%dc" with 0, 5 decodes to "ac")' % (bad[0].callee if bad and bad[0].kind == 'CALL' else 'a strcat-like call'))
